@@ -1,6 +1,7 @@
 package main
 
 import (
+	"bytes"
 	"fmt"
 	stdslog "log/slog"
 	"strings"
@@ -11,6 +12,7 @@ import (
 
 	"verifharness/gen"
 	"verifharness/mon"
+	"verifharness/oracle"
 )
 
 func init() { reg("C16", "ts", c16ts) }
@@ -33,6 +35,25 @@ var exportedLayouts = []string{slog.TimeNoNano, slog.TimeNano, slog.DateTime, sl
 
 func c16instant(r *gen.R, zones []*time.Location) time.Time {
 	loc := gen.Pick(r, zones)
+	if r.P(4) {
+		// instants inside (and at the edges of) the wall-clock hour that a named zone shows twice when daylight saving ends,
+		// and inside the hour it skips when it starts: the instant is what counts, not the wall-clock reading
+		type dst struct {
+			zone string
+			utc  time.Time
+		}
+		pool := []dst{
+			{"America/New_York", time.Date(2021, 11, 7, 5, 30, 0, 0, time.UTC)}, {"America/New_York", time.Date(2021, 11, 7, 6, 30, 0, 0, time.UTC)}, {"America/New_York", time.Date(2021, 3, 14, 7, 0, 0, 0, time.UTC)},
+			{"Europe/Berlin", time.Date(2021, 10, 31, 0, 30, 0, 0, time.UTC)}, {"Europe/Berlin", time.Date(2021, 10, 31, 1, 30, 0, 0, time.UTC)}, {"Europe/Berlin", time.Date(2022, 3, 27, 1, 0, 0, 0, time.UTC)},
+			{"Australia/Lord_Howe", time.Date(2021, 4, 3, 14, 45, 0, 0, time.UTC)}, {"Australia/Lord_Howe", time.Date(2021, 4, 3, 15, 15, 0, 0, time.UTC)},
+			{"Europe/London", time.Date(2023, 10, 29, 0, 59, 59, 999999999, time.UTC)}, {"Europe/London", time.Date(2023, 10, 29, 1, 0, 0, 0, time.UTC)},
+			{"Pacific/Chatham", time.Date(2022, 4, 2, 13, 50, 0, 0, time.UTC)}, {"Europe/Lisbon", time.Date(2022, 10, 30, 0, 30, 0, 0, time.UTC)},
+		}
+		x := gen.Pick(r, pool)
+		if l, err := time.LoadLocation(x.zone); err == nil {
+			return x.utc.Add(time.Duration(r.Intn(3)-1) * time.Duration(r.Intn(1800)) * time.Second).In(l)
+		}
+	}
 	if r.P(3) { // the zero instant (and its neighbours): a record's own instant like any other
 		return gen.Pick(r, []time.Time{{}, time.Time{}.In(loc), time.Time{}.Add(1), time.Time{}.Add(time.Second), time.Date(1, 1, 1, 0, 0, 0, 0, loc), time.Unix(0, 0).In(loc)})
 	}
@@ -226,6 +247,14 @@ func c16ts(c *Ctx) {
 		}
 		ts := c16instant(r, zones)
 		viaHandler := r.P(15)
+		// the record may carry attributes that are instants themselves, one of them under a key called time: the
+		// record's timestamp is still the record's instant
+		var tsAttrs slog.Attrs
+		if !viaHandler && r.P(12) {
+			other := c16instant(r, zones)
+			tsAttrs = slog.Attrs{slog.NewAttr("at", other), slog.NewAttr("time", other)}
+			c.R.Add("records_with_an_attribute_called_time", 1)
+		}
 		evs := capture(log, func() {
 			if viaHandler {
 				// the same instant through the log/slog adapter built on this logger (options: keep format and level)
@@ -234,15 +263,24 @@ func c16ts(c *Ctx) {
 				_ = h.Handle(bg, rec)
 				return
 			}
-			lg.WriteThru(bg, slog.InfoLevel, ts, thePC, "tsprobe", nil)
+			lg.WriteThru(bg, slog.InfoLevel, ts, thePC, "tsprobe", tsAttrs)
 		})
 		desc := map[string]any{"through_log_slog_handler": viaHandler, "set_form": setForm, "derived": derived, "earlier_record_under": earlier, "after_saveflags_window": window, "format": f.String(), "flags": flagNames(fl), "utc_mode": []string{"unset", "local (SetUTCMode(false))", "utc"}[utc], "logger_layout": layout, "instant": ts.Format(time.RFC3339Nano), "zone": ts.Location().String()}
 		if len(evs) != 1 {
 			c.R.Violation(idx, "one-write", "C16/one-write", fmtEvents(evs), desc)
 			return
 		}
-		d, err := decodeRecord(f, evs[0].Data, lg.Name() != "", false)
-		if err != nil {
+		var d *decoded
+		var err error
+		if tsAttrs != nil {
+			// the record's own timestamp leads the record; it is read from there (an attribute called time follows later)
+			lead, ok := leadingTimestamp(f, evs[0].Data)
+			if !ok {
+				c.R.Violation(idx, "timestamp", "C16/timestamp/leading/"+f.String(), "the record does not begin with its timestamp: "+q(clip(string(evs[0].Data), 200)), desc)
+				return
+			}
+			d = &decoded{Time: lead}
+		} else if d, err = decodeRecord(f, evs[0].Data, lg.Name() != "", false); err != nil {
 			c.R.Violation(idx, "decode", "C16/decode/"+f.String(), err.Error()+": "+q(clip(string(evs[0].Data), 300)), desc)
 			return
 		}
@@ -349,6 +387,38 @@ func flagTimestampProblem(printed, layout string, t time.Time, fl slog.Flags) st
 		}
 	}
 	return ""
+}
+
+// leadingTimestamp reads the timestamp a record begins with: {"time":"…" / time="…" / <colour>…| in the three formats.
+func leadingTimestamp(f Format, p []byte) (string, bool) {
+	switch f {
+	case FJSON:
+		if !bytes.HasPrefix(p, []byte(`{"time":"`)) {
+			return "", false
+		}
+		rest := p[len(`{"time":"`):]
+		i := bytes.IndexByte(rest, '"')
+		if i < 0 {
+			return "", false
+		}
+		return string(rest[:i]), true
+	case FLogfmt:
+		if !bytes.HasPrefix(p, []byte(`time="`)) {
+			return "", false
+		}
+		rest := p[len(`time="`):]
+		i := bytes.IndexByte(rest, '"')
+		if i < 0 {
+			return "", false
+		}
+		return string(rest[:i]), true
+	}
+	text := oracle.StripANSI(p)
+	i := strings.Index(text, "| ")
+	if i < 0 {
+		return "", false
+	}
+	return text[:i], true
 }
 
 func flagNames(f slog.Flags) string {
